@@ -18,6 +18,39 @@ var canaryShared int
 //go:noinline
 func canaryTouch(p *int) { *p++ }
 
+var canaryBusy [64]int
+
+//go:noinline
+func canaryWork(i int) { canaryBusy[i%64] += i }
+
+// runCanaryStale: one caller writes the shared variable and then keeps
+// running for a while (50 000 calls, about 200 000 instrumented events: with
+// the detector's default history this is already forgotten, with
+// history_size=7 it is not; beyond roughly half a million events even the
+// maximum history forgets - a stated limit of the race oracle);
+// the other caller, stalled meanwhile, touches the variable at the very
+// end.  The race detector only reports a race if it can still reconstruct
+// the earlier access from its per-goroutine history, so this variant fails
+// unless that history is large enough (GORACE history_size) for the stalls
+// the scheduler imposes.
+func runCanaryStale() {
+	t := kernel.NewTape(1)
+	cfg := kernel.SchedCfg{Policy: kernel.PolStall, Victim: 0, Mean: 1 << 30, MaxSteps: 1 << 40}
+	s := kernel.NewSched(t, cfg, 4)
+	s.Go(func(tk *kernel.Task) { // starved until the other caller is done
+		s.Yield(1)
+		canaryTouch(&canaryShared)
+	})
+	s.Go(func(tk *kernel.Task) {
+		canaryTouch(&canaryShared)
+		for i := 0; i < 50_000; i++ {
+			canaryWork(i)
+		}
+		s.Yield(1)
+	})
+	s.Run()
+}
+
 func runCanary(shared bool) {
 	t := kernel.NewTape(1)
 	cfg := kernel.SchedCfg{Policy: kernel.PolRR, Mean: 1, MaxSteps: 1000}
